@@ -19,7 +19,13 @@ def endpoint_stage(rep, tier, work, mode):
         raise ToolError("the deviation MCEndpointDebug_lastthread does not violate PauseStops:\n" + neg["stdout"][-1500:])
     n = (60 if tier == "quick" else 900) if mode == "debug" else (45 if tier == "quick" else 600)
     tr = work / f"endpoint-{mode}.ndjson"
-    tpv(["dbgep-run", "--mode", mode, "--seed", seed(), "--runs", n, "--work", work / f"endpoint-{mode}-w", "--out", tr], timeout=3000)
+    # in chunks of 60 runs, one process each (every run's endpoint fixture leaves threads behind)
+    with open(tr, "w") as out:
+        for off in range(0, n, 60):
+            part = work / f"endpoint-{mode}.{off}.ndjson"
+            tpv(["dbgep-run", "--mode", mode, "--seed", seed(), "--offset", off, "--runs", min(60, n - off), "--work", work / f"endpoint-{mode}-w", "--out", part], timeout=3000)
+            out.write(part.read_text())
+            part.unlink()
     rows = read_ndjson(tr)
     runs = split_runs(rows)
     verdict, _ = validate_trace("EndpointDebugTrace", tr, tag=f"trace-endpoint-{mode}")
